@@ -133,7 +133,7 @@ func Exec(t *testing.T, p *Plan, replay bool) (res *Result) {
 			}
 		}
 		if w.retain != nil {
-			res.stabilityFinal = w.checkStability()
+			res.stabilityFinal = append(w.stabViol, w.checkStability()...)
 		}
 		res.parseViol = w.parseViol
 		if os.Getenv("VERIF_DEBUG") != "" {
